@@ -74,7 +74,7 @@ def kindClass : Kind → Kind
 
 inductive TErr where
   | wrongArgument | wrongNumberOfArguments | wrongFunctionSignature | nonExistentFunction
-  | unspreadable | spreadError | undeclaredVariable
+  | unspreadable | spreadError | undeclaredVariable | wrongExpectedArgument
   /-- `BinOpError`; the cause is kept as ghost information (the Rust drops it) -/
   | binOpError (cause : OpErr)
   | unOpError (cause : OpErr)
@@ -85,6 +85,7 @@ def TErr.name : TErr → String
   | .wrongArgument => "WrongArgument" | .wrongNumberOfArguments => "WrongNumberOfArguments"
   | .wrongFunctionSignature => "WrongFunctionSignature" | .nonExistentFunction => "NonExistentFunction"
   | .unspreadable => "Unspreadable" | .spreadError => "SpreadError" | .undeclaredVariable => "UndeclaredVariable"
+  | .wrongExpectedArgument => "WrongExpectedArgument"
   | .binOpError _ => "BinOpError" | .unOpError _ => "UnOpError" | .outOfBounds => "OutOfBounds" | .other => "Other"
 
 /-- a failure is *data dependent* (allowed after a successful type check) iff it is an out-of-range
